@@ -180,6 +180,7 @@ func decodeStruct(p Paragraph, into reflect.Value) error {
 			if fieldType.Type == paragraphType {
 				/* Neat! Let's give the struct this data */
 				field.Set(reflect.ValueOf(p))
+				continue
 			} else {
 				/* Otherwise, we're going to avoid doing more maths on it */
 				continue
